@@ -89,6 +89,7 @@ type Frame struct {
 	iters     map[int]*RangeIter // loop header block index -> active map iterator
 	loopEntry map[int]*Snapshot  // state at loop entry
 	loopAssign map[int]*assignSet
+	loopLocals map[int]map[*ssa.Alloc]Val // values of locals when the loop was entered
 	decAt     map[int]Term
 	inlineTag string
 }
@@ -122,6 +123,10 @@ func (f *Frame) fork(memo map[*Frame]*Frame) *Frame {
 	n.loopEntry = make(map[int]*Snapshot, len(f.loopEntry))
 	for k, v := range f.loopEntry {
 		n.loopEntry[k] = v
+	}
+	n.loopLocals = make(map[int]map[*ssa.Alloc]Val, len(f.loopLocals))
+	for k, v := range f.loopLocals {
+		n.loopLocals[k] = v
 	}
 	n.loopAssign = make(map[int]*assignSet, len(f.loopAssign))
 	for k, v := range f.loopAssign {
@@ -496,7 +501,9 @@ func (run *FuncRun) heapFacts(comp string, t Term, bound Term) []string {
 		if len(facts) == 0 {
 			return
 		}
-		out = append(out, fmt.Sprintf("(assert (forall (%s) (! (and %s) :pattern (%s))))", binders, strings.Join(facts, " "), pattern))
+		// only allocated objects are constrained: the unallocated part of a
+		// component is where callees' new objects will appear
+		out = append(out, fmt.Sprintf("(assert (forall (%s) (! (=> (< r %s) (and %s)) :pattern (%s))))", binders, bound.S, strings.Join(facts, " "), pattern))
 	}
 	switch {
 	case strings.HasPrefix(comp, "H:"), strings.HasPrefix(comp, "cell:"):
